@@ -29,6 +29,9 @@ import time
 import traceback
 import multiprocessing as mp
 
+# seconds of minimisation per failure bucket (see shrinkrun)
+SHRINK_BUDGET_S = float(os.environ.get('VERIF_SHRINK_BUDGET', '60'))
+
 ROOT = os.path.dirname(os.path.dirname(os.path.abspath(__file__)))
 KNOWN_FILE = os.path.join(ROOT, 'KNOWN_FINDINGS.jsonl')
 INFLIGHT_SIZE = 1 << 20
@@ -296,12 +299,19 @@ def _collect_leg(leg, n, seed, known, inflight, out, shard=(0, 1)):
         @_hyp_settings(n, shrink=True)
         @given(leg.strategy)
         def shrinkrun(case):
+            # minimisation budget per bucket (large generated cases - dozens of series - can keep the shrinker busy for
+            # its full five minutes): once it is used up the remaining attempts are not executed, and the smallest
+            # failing case seen so far becomes the replay file. The verdict does not depend on it, only how small the
+            # reproducer is.
+            if 't0' in last and time.time() - last['t0'] > SHRINK_BUDGET_S:
+                return
             inflight.set(leg.name, case)
             res = leg.run(case)
             for b, msg in res.failures:
                 if b == bucket and not known.match(leg.name, case, b):
                     last['case'] = case
                     last['msg'] = msg
+                    last.setdefault('t0', time.time())
                     raise AssertionError(msg)
 
         try:
